@@ -94,7 +94,7 @@ def describe(tier):
             parts.append("edges %s: %d analyses x vars %s x contexts %s x all flows of length %s over "
                          "%d pool arguments" % (edges, len(M.ANALYSES), "/".join(vs), "/".join(ms),
                                                 ",".join(map(str, ls)), len(M.arg_pool(edges))))
-        parts.append("IterateBins (3 configurations) and MapBins (%d sequences x drop_bins_context) "
+        parts.append("IterateBins (4 configurations) and MapBins (%d sequences x drop_bins_context) "
                      "on every histogram these yield for flows up to length %d"
                      % (len(M.MAP_SEQS), follow))
     parts.append("plus hand-made histograms: 7 shapes x 7 cell kinds x 4 histogram contexts")
@@ -453,7 +453,12 @@ def _input_facts(inp):
     return hist, hctx, cells, contents, nontrivial
 
 
-ITER_CONFIGS = ("default", "all", "custom_str")
+ITER_CONFIGS = ("default", "all", "custom_str", "content")
+
+
+def is_content(x):
+    """select_bins "is used to test bin contents": true for a content, false for a (data, context) cell."""
+    return not (isinstance(x, tuple) and len(x) == 2 and isinstance(x[1], dict))
 
 
 def check_iterate(res, desc, config, inp=None):
@@ -481,6 +486,10 @@ def check_iterate(res, desc, config, inp=None):
         el = lena.structures.IterateBins()
     elif config == "all":
         el = lena.structures.IterateBins(select_bins=always)
+    elif config == "content":
+        if not all(is_content(x) for x in datas):
+            return
+        el = lena.structures.IterateBins(select_bins=is_content)
     else:
         el = lena.structures.IterateBins(create_edges_str=rec, select_bins=always)
     problems = None
